@@ -107,7 +107,14 @@ impl PosOracle for C06 {
             Ok(r) => return Err(Finding::new("standard-input", "", format!("standard FEN '{std_txt}' parses to {:?}, the position itself is {:?}", r, b))),
             Err(e) => return Err(Finding::new("standard-input", "standard text rejected", format!("'{std_txt}': {e}"))),
         }
-        run.add("standard_fen_parsed", 1);
+        // the clocks of a standard FEN are arbitrary numbers; they must not disturb the position
+        let clk_txt = std_txt.replace(" 0 1", " 37 54");
+        match guard::lib(|| Board::from_str(&clk_txt)).map_err(|e| Finding::new("panic", "from_str panicked", e))? {
+            Ok(r) if r == b => {}
+            Ok(_) => return Err(Finding::new("standard-input", "clock fields change the position", format!("standard FEN '{clk_txt}' parses to a different board than with clocks 0 1"))),
+            Err(e) => return Err(Finding::new("standard-input", "standard text with other clocks rejected", format!("'{clk_txt}': {e}"))),
+        }
+        run.add("standard_fen_parsed", 2);
         // the unvalidated builder renders and re-parses the same way
         let bb: BoardBuilder = (&b).into();
         check_builder(&bb, "builder of the board")?;
